@@ -198,10 +198,12 @@ struct D<'a> {
     /// kind of the first length-prefixed container whose prefix exceeds the bytes that remain (this is where an
     /// implementation that trusts the prefix would reserve memory)
     culprit: Option<&'static str>,
+    /// nesting depth (sequence / array / option) at which `bad` was raised
+    fail_depth: u32,
 }
 impl<'a> D<'a> {
     fn new(r: &'a [u8]) -> Self {
-        D { r, depth: 0, why: "", inside: false, culprit: None }
+        D { r, depth: 0, why: "", inside: false, culprit: None, fail_depth: 0 }
     }
     fn take(&mut self, n: usize) -> Result<&'a [u8], ()> {
         if self.r.len() < n {
@@ -214,6 +216,7 @@ impl<'a> D<'a> {
     }
     fn bad<T>(&mut self, why: &'static str) -> Result<T, ()> {
         self.why = why;
+        self.fail_depth = self.depth;
         Err(())
     }
 }
@@ -233,7 +236,14 @@ trait Spec: Sized {
     fn eff_v(v: bool) -> bool {
         v
     }
+    /// length-prefixed sequences: in-memory size of one element (the deserializers reserve at most 4096 bytes
+    /// = 4096 / size_of::<element>() elements before reading; used only to LABEL values whose length is beyond
+    /// that reservation); 0 = not a length-prefixed sequence
+    fn elem_mem() -> usize {
+        0
+    }
 }
+const PREALLOC_CAP_BYTES: usize = 4096;
 fn model_bytes<T: Spec>(x: &T, c: bool) -> E {
     let mut e = E::default();
     x.enc(c, &mut e);
@@ -387,6 +397,9 @@ impl<T: Spec> Spec for Vec<T> {
     fn ok(&self) -> bool {
         self.iter().all(|x| x.ok())
     }
+    fn elem_mem() -> usize {
+        std::mem::size_of::<T>().max(1)
+    }
     fn dec(d: &mut D, c: bool, v: bool) -> R<Self> {
         dec_seq(d, c, v, "vec")
     }
@@ -397,6 +410,9 @@ impl<T: Spec> Spec for VecDeque<T> {
     }
     fn ok(&self) -> bool {
         self.iter().all(|x| x.ok())
+    }
+    fn elem_mem() -> usize {
+        std::mem::size_of::<T>().max(1)
     }
     fn dec(d: &mut D, c: bool, v: bool) -> R<Self> {
         Ok(dec_seq::<T>(d, c, v, "vecdeque")?.map(|o| o.into_iter().collect()))
@@ -409,6 +425,9 @@ impl<T: Spec> Spec for LinkedList<T> {
     fn ok(&self) -> bool {
         self.iter().all(|x| x.ok())
     }
+    fn elem_mem() -> usize {
+        std::mem::size_of::<T>().max(1)
+    }
     fn dec(d: &mut D, c: bool, v: bool) -> R<Self> {
         Ok(dec_seq::<T>(d, c, v, "linkedlist")?.map(|o| o.into_iter().collect()))
     }
@@ -419,6 +438,9 @@ impl<T: Spec + Ord> Spec for BTreeSet<T> {
     }
     fn ok(&self) -> bool {
         self.iter().all(|x| x.ok())
+    }
+    fn elem_mem() -> usize {
+        std::mem::size_of::<T>().max(1)
     }
     fn dec(d: &mut D, c: bool, v: bool) -> R<Self> {
         Ok(dec_seq::<T>(d, c, v, "btreeset")?.map(|o| o.into_iter().collect()))
@@ -435,6 +457,9 @@ impl<K: Spec + Ord, V: Spec> Spec for BTreeMap<K, V> {
     fn ok(&self) -> bool {
         self.iter().all(|(k, v)| k.ok() && v.ok())
     }
+    fn elem_mem() -> usize {
+        std::mem::size_of::<(K, V)>().max(1)
+    }
     fn dec(d: &mut D, c: bool, v: bool) -> R<Self> {
         // later duplicates overwrite earlier ones
         Ok(dec_seq::<(K, V)>(d, c, v, "btreemap")?.map(|o| o.into_iter().collect()))
@@ -444,6 +469,9 @@ impl Spec for String {
     fn enc(&self, _c: bool, e: &mut E) {
         e.len_prefix(self.as_bytes().len());
         e.out.extend_from_slice(self.as_bytes());
+    }
+    fn elem_mem() -> usize {
+        1
     }
     fn dec(d: &mut D, c: bool, v: bool) -> R<Self> {
         let b = dec_seq::<u8>(d, c, v, "string")?.unwrap();
@@ -469,6 +497,9 @@ impl Spec for BigUint {
         }
         e.len_prefix(digits.len());
         e.out.extend_from_slice(&digits);
+    }
+    fn elem_mem() -> usize {
+        1
     }
     fn dec(d: &mut D, c: bool, v: bool) -> R<Self> {
         let b = dec_seq::<u8>(d, c, v, "biguint")?.unwrap();
@@ -796,6 +827,30 @@ struct Small {
     t: (bool, (u16, Option<u8>)),
     s: String,
 }
+/// derive shapes that nothing else instantiates
+#[derive(CanonicalSerialize, CanonicalDeserialize, Clone, PartialEq, Debug)]
+struct UnitS;
+#[derive(CanonicalSerialize, CanonicalDeserialize, Clone, PartialEq, Debug)]
+struct EmptyNamed {}
+/// tuple struct whose FIRST field is a nested tuple ((A, B), C)
+#[derive(CanonicalSerialize, CanonicalDeserialize, Clone, PartialEq, Debug)]
+struct TupNest(((u8, Fr), bool), u16);
+/// bounds in a where clause
+#[derive(CanonicalSerialize, CanonicalDeserialize, Clone, PartialEq, Debug)]
+struct WithWhere<T>
+where
+    T: CanonicalSerialize + CanonicalDeserialize,
+{
+    a: T,
+    b: u8,
+}
+/// a generic parameter that only occurs in PhantomData (and is not serializable itself)
+#[derive(CanonicalSerialize, CanonicalDeserialize, Clone, PartialEq, Debug)]
+struct Ph<T: Send + Sync> {
+    n: u16,
+    m: PhantomData<T>,
+    z: Option<u8>,
+}
 /// Combine field results: all Some -> Some(build)
 macro_rules! fields { ($d:ident, $c:ident, $v:ident; $($n:ident : $t:ty),*; $build:expr) => {{
     $(let $n = <$t as Spec>::dec($d, $c, $v)?;)*
@@ -860,6 +915,50 @@ impl<T: Spec + CanonicalSerialize + CanonicalDeserialize> Spec for Gen<T> {
     }
     fn dec(d: &mut D, c: bool, v: bool) -> R<Self> {
         fields!(d, c, v; n: u32, t: T, l: Vec<T>, p0: T, p1: T; Gen { n, t, l, pair: (p0, p1) })
+    }
+}
+impl Spec for UnitS {
+    fn enc(&self, _c: bool, _e: &mut E) {}
+    fn dec(_d: &mut D, _c: bool, _v: bool) -> R<Self> {
+        Ok(Some(UnitS))
+    }
+}
+impl Spec for EmptyNamed {
+    fn enc(&self, _c: bool, _e: &mut E) {}
+    fn dec(_d: &mut D, _c: bool, _v: bool) -> R<Self> {
+        Ok(Some(EmptyNamed {}))
+    }
+}
+impl Spec for TupNest {
+    fn enc(&self, c: bool, e: &mut E) {
+        ((self.0).0).0.enc(c, e);
+        ((self.0).0).1.enc(c, e);
+        (self.0).1.enc(c, e);
+        self.1.enc(c, e);
+    }
+    fn dec(d: &mut D, c: bool, v: bool) -> R<Self> {
+        fields!(d, c, v; a: u8, f: Fr, b: bool, w: u16; TupNest(((a, f), b), w))
+    }
+}
+impl<T: Spec + CanonicalSerialize + CanonicalDeserialize> Spec for WithWhere<T> {
+    fn enc(&self, c: bool, e: &mut E) {
+        self.a.enc(c, e);
+        self.b.enc(c, e);
+    }
+    fn ok(&self) -> bool {
+        self.a.ok()
+    }
+    fn dec(d: &mut D, c: bool, v: bool) -> R<Self> {
+        fields!(d, c, v; a: T, b: u8; WithWhere { a, b })
+    }
+}
+impl<T: Send + Sync> Spec for Ph<T> {
+    fn enc(&self, c: bool, e: &mut E) {
+        self.n.enc(c, e);
+        self.z.enc(c, e);
+    }
+    fn dec(d: &mut D, c: bool, v: bool) -> R<Self> {
+        fields!(d, c, v; n: u16, z: Option<u8>; Ph { n, m: PhantomData, z })
     }
 }
 impl Spec for Small {
@@ -953,6 +1052,8 @@ const NESTED: u32 = 2; // container of containers
 const DNT: u32 = 4; // derived struct with a nested-tuple field
 const DERIVED: u32 = 8;
 const BIG: u32 = 16;
+const MIXED: u32 = 64; // containers of curve points: values with exactly one invalid member in each position + all-valid twins
+const NOSHORT: u32 = 128; // not in the "all byte strings of length <= 2" sweep (their short inputs only exercise the outer length prefix / first scalar, as for the plain types)
 const NOMAL: u32 = 32; // valid values only (containers of zero-sized elements) // contains curve elements: few seeds, long encodings allowed
 
 trait Ser: Spec + CanonicalSerialize + CanonicalDeserialize + PartialEq + std::fmt::Debug + Clone + Send + Sync + 'static {}
@@ -969,6 +1070,7 @@ struct ModelOut {
     why: &'static str,
     inside: bool,
     culprit: Option<&'static str>,
+    fail_depth: u32,
 }
 struct Ty {
     name: &'static str,
@@ -976,6 +1078,7 @@ struct Ty {
     flags: u32,
     nvalues: usize,
     valid: Box<dyn Fn(u64, &mut Loc) + Send + Sync>,
+    elem_mem: usize,
     seeds: Vec<Seed>,
     child: fn(&[u8], bool, bool) -> String,
     model: fn(&[u8], bool, bool) -> ModelOut,
@@ -986,7 +1089,7 @@ fn model_run<T: Spec>(input: &[u8], c: bool, v: bool) -> ModelOut {
     let mut d = D::new(input);
     let r = T::dec(&mut d, c, v);
     let consumed = input.len() - d.r.len();
-    ModelOut { res: r.map(|o| o.map(|x| model_bytes(&x, c).out)), consumed, why: d.why, inside: d.inside, culprit: d.culprit }
+    ModelOut { res: r.map(|o| o.map(|x| model_bytes(&x, c).out)), consumed, why: d.why, inside: d.inside, culprit: d.culprit, fail_depth: d.fail_depth }
 }
 
 thread_local! {
@@ -1060,7 +1163,7 @@ fn reg<T: Ser>(out: &mut Vec<Ty>, with_values: bool, name: &'static str, site: &
         let (c, v) = MODES[(i % 4) as usize];
         valid_case::<T>(name, site, flags, x, c, v, loc);
     });
-    out.push(Ty { name, site, flags, nvalues, valid, seeds, child: child_run::<T>, model: model_run::<T>, eff_v: T::eff_v });
+    out.push(Ty { name, site, flags, nvalues, valid, elem_mem: T::elem_mem(), seeds, child: child_run::<T>, model: model_run::<T>, eff_v: T::eff_v });
 }
 
 /// all sequences of length <= maxlen over the alphabet
@@ -1201,6 +1304,10 @@ fn registry(wv: bool, thorough: bool) -> Vec<Ty> {
             let mut v = seqs(&a, ml);
             v.push(vec![0xab; 300]);
             v.push((0..70000u32).map(|i| (i % 251) as u8).collect());
+            // around and beyond the 4096 bytes reserved before reading
+            for n in [4095usize, 4096, 4097, 5000] {
+                v.push((0..n).map(|i| (i % 251) as u8 ^ (i >> 8) as u8).collect());
+            }
             v
         }
     });
@@ -1223,6 +1330,9 @@ fn registry(wv: bool, thorough: bool) -> Vec<Ty> {
         let mut v = seqs(&g, ml);
         v.push((0..33).map(|i| g[i % 3]).collect());
         v.push((0..33).map(|i| if i == 17 { g[3] } else { g[i % 3] }).collect());
+        // 90 points: beyond the 4096 bytes (39 points) reserved before reading; all valid / the last one invalid
+        v.push((0..90).map(|i| g[i % 3]).collect());
+        v.push((0..90).map(|i| if i == 89 { g[3] } else { g[i % 3] }).collect());
         v
     });
     reg::<Vec<G1Projective>>(&mut o, wv, "Vec<G1Projective>", "vec", LENP | BIG, || {
@@ -1240,6 +1350,16 @@ fn registry(wv: bool, thorough: bool) -> Vec<Ty> {
                 d.push_front(0xf000 + k);
             }
             v.push(d);
+            // beyond the 4096 bytes (2048 elements) reserved before reading, contiguous and wrapped
+            let long: VecDeque<u16> = (0..2049u16).map(|i| i.wrapping_mul(31)).collect();
+            let mut wrapped = long.clone();
+            wrapped.rotate_left(700);
+            for k in 0..5 {
+                wrapped.push_front(k);
+                wrapped.pop_back();
+            }
+            v.push(long);
+            v.push(wrapped);
             v
         }
     });
@@ -1257,6 +1377,7 @@ fn registry(wv: bool, thorough: bool) -> Vec<Ty> {
     reg::<String>(&mut o, wv, "String", "string", LENP, move || {
         let mut v: Vec<String> = seqs(&['a', '\u{e9}', '\u{1d11e}', '\0'], ml.min(3)).into_iter().map(|s| s.into_iter().collect()).collect();
         v.push("a\u{e9}\u{1d11e}\0".repeat(150));
+        v.push(format!("{}\u{e9}", "xyz\u{1d11e}".repeat(585))); // 585 * 7 + 2 = 4097 bytes
         v
     });
     // --- maps and sets: all subsets of a 4-key set
@@ -1295,7 +1416,7 @@ fn registry(wv: bool, thorough: bool) -> Vec<Ty> {
     reg::<BTreeSet<Vec<u8>>>(&mut o, wv, "BTreeSet<Vec<u8>>", "btreeset", LENP | NESTED, || subsets(&[vec![], vec![1u8], vec![1, 2]]).into_iter().map(|s| s.into_iter().collect()).collect());
     // --- big integers
     reg::<BigUint>(&mut o, wv, "BigUint", "biguint", LENP, || {
-        vec![BigUint::zero(), BigUint::one(), BigUint::from(255u32), BigUint::from(256u32), BigUint::one() << 64, BigUint::one() << 200, (BigUint::one() << 64) - 1u32, (BigUint::one() << 5000) + 12345u32]
+        vec![BigUint::zero(), BigUint::one(), BigUint::from(255u32), BigUint::from(256u32), BigUint::one() << 64, BigUint::one() << 200, (BigUint::one() << 64) - 1u32, (BigUint::one() << 5000) + 12345u32, (BigUint::one() << (8 * 4096)) + 0xa5u32, (BigUint::from(0x5au32) << (8 * 4999)) + 77u32]
     });
     reg::<BigInt<1>>(&mut o, wv, "BigInt<1>", "bigint", 0, || L10.iter().map(|x| BigInt([*x])).collect());
     reg::<BigInt<2>>(&mut o, wv, "BigInt<2>", "bigint", 0, || L4.iter().flat_map(|a| L4.iter().map(move |b| BigInt([*a, *b]))).chain([BigInt([GENERIC64, 0x0102030405060708])]).collect());
@@ -1411,6 +1532,149 @@ fn registry(wv: bool, thorough: bool) -> Vec<Ty> {
         }
         out
     });
+    // --- mixed batches: containers of curve points whose `batch_check` receives valid and invalid members together.
+    // g[3] is on the curve but outside the prime-order subgroup; every position of every shape holds it exactly once
+    // (checked deserialization must fail, unchecked must succeed), and every shape also occurs with valid members only.
+    {
+        /// all ways of putting `bad` into exactly one of `n` slots otherwise filled with g[1], g[2], g[0], g[1], .. - and the all-valid filling
+        fn fillings(n: usize) -> Vec<Vec<G1Affine>> {
+            let g = g1a();
+            let base: Vec<G1Affine> = (0..n).map(|i| g[[1, 2, 0][i % 3]]).collect();
+            let mut out = vec![base.clone()];
+            for k in 0..n {
+                let mut v = base.clone();
+                v[k] = g[3];
+                out.push(v);
+            }
+            out
+        }
+        reg::<Vec<Option<G1Affine>>>(&mut o, wv, "Vec<Option<G1Affine>>", "vec", LENP | BIG | NESTED | MIXED | NOSHORT, || {
+            let mut out = vec![vec![], vec![None]];
+            // shapes: [None, Some], [Some, None, Some], [Some, Some, None], [Some]
+            for shape in [&[false, true][..], &[true, false, true], &[true, true, false], &[true]] {
+                for f in fillings(shape.iter().filter(|s| **s).count()) {
+                    let mut it = f.into_iter();
+                    out.push(shape.iter().map(|s| if *s { it.next() } else { None }).collect());
+                }
+            }
+            out
+        });
+        reg::<Vec<Vec<G1Affine>>>(&mut o, wv, "Vec<Vec<G1Affine>>", "vec", LENP | BIG | NESTED | MIXED | NOSHORT, || {
+            let mut out = vec![vec![], vec![vec![]]];
+            for shape in [&[1usize, 2][..], &[0, 2, 1], &[3], &[1, 0, 1]] {
+                for f in fillings(shape.iter().sum()) {
+                    let mut it = f.into_iter();
+                    out.push(shape.iter().map(|k| (0..*k).map(|_| it.next().unwrap()).collect()).collect());
+                }
+            }
+            out
+        });
+        reg::<Option<Vec<G1Affine>>>(&mut o, wv, "Option<Vec<G1Affine>>", "option", BIG | NESTED | MIXED | NOSHORT, || {
+            let mut out = vec![None, Some(vec![])];
+            for n in 1..=3 {
+                out.extend(fillings(n).into_iter().map(Some));
+            }
+            out
+        });
+        reg::<Vec<[G1Affine; 2]>>(&mut o, wv, "Vec<[G1Affine;2]>", "vec", LENP | BIG | MIXED | NOSHORT, || {
+            let mut out = vec![vec![]];
+            for n in 1..=2 {
+                out.extend(fillings(2 * n).into_iter().map(|f| f.chunks(2).map(|c| [c[0], c[1]]).collect::<Vec<_>>()));
+            }
+            out
+        });
+        reg::<Vec<Named>>(&mut o, wv, "Vec<derive:Named>", "vec", LENP | BIG | NESTED | DERIVED | MIXED | NOSHORT, || {
+            let e = eda();
+            let named = |k: usize, p: G1Affine, q: EdwardsAffine| Named { tag: k as u8, p, f: Fr::from(7u64 + k as u64), v: vec![k as u16; k % 2], o: if k % 2 == 0 { None } else { Some(true) }, e: q };
+            let mut out = vec![vec![]];
+            for n in 1..=3usize {
+                // the G1 field of exactly one member invalid
+                for f in fillings(n) {
+                    out.push(f.into_iter().enumerate().map(|(k, p)| named(k, p, e[1 + k % 2])).collect());
+                }
+                // the Edwards field of exactly one member invalid
+                for bad in 0..n {
+                    out.push((0..n).map(|k| named(k, g1a()[1 + k % 2], if k == bad { e[3] } else { e[1 + k % 2] })).collect());
+                }
+            }
+            out
+        });
+        reg::<(G1Affine, Vec<G1Affine>)>(&mut o, wv, "(G1Affine,Vec<G1Affine>)", "tuple", BIG | NESTED | MIXED | NOSHORT, || {
+            let mut out = vec![(g1a()[1], vec![])];
+            for n in 1..=3 {
+                out.extend(fillings(n).into_iter().map(|f| (f[0], f[1..].to_vec())));
+            }
+            out
+        });
+        reg::<BTreeMap<u8, G1Affine>>(&mut o, wv, "BTreeMap<u8,G1Affine>", "btreemap", LENP | BIG | MIXED | NOSHORT, || {
+            let mut out = vec![BTreeMap::new()];
+            for n in 1..=3 {
+                out.extend(fillings(n).into_iter().map(|f| f.into_iter().enumerate().map(|(k, p)| ([3u8, 0x80, 0xff][k], p)).collect::<BTreeMap<u8, G1Affine>>()));
+            }
+            out
+        });
+    }
+    // --- sequences LONGER than what the deserializers reserve before reading (4096 bytes of elements): a read loop
+    // bounded by the reserved capacity instead of the length prefix would return a short container / leave input behind
+    {
+        reg::<Vec<u64>>(&mut o, wv, "Vec<u64>", "vec", LENP | NOSHORT, || {
+            let mut v: Vec<Vec<u64>> = vec![vec![], vec![GENERIC64], vec![0, u64::MAX]];
+            v.extend([511usize, 512, 513, 600].iter().map(|n| (0..*n as u64).map(|i| i.wrapping_mul(GENERIC64)).collect::<Vec<u64>>()));
+            v
+        });
+        reg::<Vec<[u8; 32]>>(&mut o, wv, "Vec<[u8;32]>", "vec", LENP | NOSHORT, || {
+            let el = |k: usize| -> [u8; 32] { std::array::from_fn(|j| (k * 37 + j) as u8) };
+            vec![vec![], vec![el(1)], (0..127).map(el).collect(), (0..128).map(el).collect(), (0..129).map(el).collect()]
+        });
+        reg::<Vec<[u64; 600]>>(&mut o, wv, "Vec<[u64;600]>", "vec", LENP | NOSHORT | BIG, || {
+            let el = |k: u64| -> [u64; 600] { std::array::from_fn(|j| (k << 32) | j as u64) };
+            vec![vec![], vec![el(1)], vec![el(2), el(3)]]
+        });
+        reg::<BTreeMap<u32, u64>>(&mut o, wv, "BTreeMap<u32,u64>", "btreemap", LENP | NOSHORT, || {
+            vec![BTreeMap::new(), [(7u32, 8u64)].into_iter().collect(), (0..400u32).map(|k| (k.wrapping_mul(0x01000193), (k as u64) << 20 | 5)).collect()]
+        });
+    }
+    // --- bool bytes / option tags as ELEMENTS of the remaining sequence kinds (Vec<bool>, [bool;3], Vec<Option<u16>>, tuples
+    // and derived structs with bool / Option fields are registered above): the fault enumeration puts 0x02 / 0x7f / 0x80 / 0xff
+    // on every byte of every encoding
+    reg::<VecDeque<bool>>(&mut o, wv, "VecDeque<bool>", "vecdeque", LENP | NOSHORT, || deques(&[false, true], 3));
+    reg::<LinkedList<Option<u8>>>(&mut o, wv, "LinkedList<Option<u8>>", "linkedlist", LENP | NESTED | NOSHORT, || seqs(&[None, Some(0u8), Some(0xff)], 3).into_iter().map(|s| s.into_iter().collect()).collect());
+    reg::<[Option<bool>; 2]>(&mut o, wv, "[Option<bool>;2]", "array", NOSHORT, || seqs(&[None, Some(false), Some(true)], 2).into_iter().filter(|s| s.len() == 2).map(|s| [s[0], s[1]]).collect());
+    reg::<Vec<(u8, bool)>>(&mut o, wv, "Vec<(u8,bool)>", "vec", LENP | NOSHORT, || seqs(&[(0u8, false), (0xff, true)], 3));
+    reg::<LinkedList<bool>>(&mut o, wv, "LinkedList<bool>", "linkedlist", LENP | NOSHORT, || seqs(&[false, true], 3).into_iter().map(|s| s.into_iter().collect()).collect());
+    // --- derive shapes not instantiated above: unit struct, empty named struct, tuple struct with a nested-tuple field,
+    // where-clause bounds, a generic parameter used in PhantomData only
+    reg::<UnitS>(&mut o, wv, "derive:UnitS", "derive_unit", DERIVED | NOSHORT, || vec![UnitS]);
+    reg::<EmptyNamed>(&mut o, wv, "derive:EmptyNamed", "derive_empty_named", DERIVED | NOSHORT, || vec![EmptyNamed {}]);
+    reg::<TupNest>(&mut o, wv, "derive:TupNest", "derive_tuple_struct_nested_tuple", DERIVED | DNT | NOSHORT, move || {
+        let mut out = Vec::new();
+        for (i, f) in fra().into_iter().enumerate() {
+            for b in [false, true] {
+                out.push(TupNest(((0x11 * i as u8, f), b), 0x0102 << i));
+            }
+        }
+        out
+    });
+    reg::<WithWhere<G1Affine>>(&mut o, wv, "derive:WithWhere<G1Affine>", "derive_where_clause", DERIVED | BIG | NOSHORT, || g1a().into_iter().enumerate().map(|(i, a)| WithWhere { a, b: 0x40 + i as u8 }).collect());
+    reg::<WithWhere<Vec<bool>>>(&mut o, wv, "derive:WithWhere<Vec<bool>>", "derive_where_clause", DERIVED | NESTED | NOSHORT, || seqs(&[false, true], 2).into_iter().enumerate().map(|(i, a)| WithWhere { a, b: i as u8 }).collect());
+    reg::<Ph<std::time::Duration>>(&mut o, wv, "derive:Ph<Duration>", "derive_phantom_generic", DERIVED | NOSHORT, || {
+        vec![Ph { n: 0, m: PhantomData, z: None }, Ph { n: 0x0102, m: PhantomData, z: Some(0) }, Ph { n: 0xffff, m: PhantomData, z: Some(0xff) }]
+    });
+    // --- arrays longer than 3
+    reg::<[u8; 32]>(&mut o, wv, "[u8;32]", "array", NOSHORT, || vec![[0u8; 32], [0xff; 32], std::array::from_fn(|j| j as u8), std::array::from_fn(|j| if j == 31 { 0x80 } else { 0 })]);
+    reg::<[u64; 48]>(&mut o, wv, "[u64;48]", "array", BIG | NOSHORT, || vec![[0u64; 48], [u64::MAX; 48], std::array::from_fn(|j| GENERIC64.wrapping_mul(j as u64 + 1))]);
+    reg::<[G1Affine; 5]>(&mut o, wv, "[G1Affine;5]", "array", BIG | MIXED | NOSHORT, || {
+        let g = g1a();
+        let base: [G1Affine; 5] = std::array::from_fn(|i| g[[1, 2, 0][i % 3]]);
+        let mut out = vec![base];
+        // the out-of-subgroup point in each of the 5 positions
+        for k in 0..5 {
+            let mut v = base;
+            v[k] = g[3];
+            out.push(v);
+        }
+        out
+    });
     o
 }
 fn named_values() -> Vec<Named> {
@@ -1443,6 +1707,10 @@ fn trunc(s: String) -> String {
         s
     }
 }
+/// a library call whose panic is reported at the call site (instead of aborting the whole case)
+fn guarded<T>(f: impl FnOnce() -> T) -> Result<T, String> {
+    catch_unwind(AssertUnwindSafe(f)).map_err(|p| panic_text(p))
+}
 fn ser<T: CanonicalSerialize + ?Sized>(x: &T, c: bool) -> Option<Vec<u8>> {
     let mut b = Vec::new();
     x.serialize_with_mode(&mut b, cm(c)).ok().map(|_| b)
@@ -1466,6 +1734,15 @@ fn valid_case<T: Ser>(name: &'static str, site: &'static str, flags: u32, x: &T,
     let okm = x.ok();
     loc.class_if(!okm, "value_invalid(out_of_subgroup)");
     loc.class_if(m.len() >= 256, "large(>=256 bytes)");
+    // the outermost sequence is longer than what the deserializer reserves before reading (4096 bytes of elements)
+    if T::elem_mem() > 0 {
+        if let Some((0, n)) = e.lens.first() {
+            loc.class_if(*n as usize > PREALLOC_CAP_BYTES / T::elem_mem(), "len_beyond_preallocation_cap");
+            loc.class_if(*n as usize == PREALLOC_CAP_BYTES / T::elem_mem(), "len_at_preallocation_cap");
+        }
+    }
+    loc.class_if(flags & MIXED != 0 && !okm, "mixed_batch:one_invalid_member");
+    loc.class_if(flags & MIXED != 0 && okm && !e.lens.iter().all(|l| l.1 == 0), "mixed_batch:all_valid_twin");
 
     // serialize
     let b = ser(x, c);
@@ -1527,6 +1804,30 @@ fn valid_case<T: Ser>(name: &'static str, site: &'static str, flags: u32, x: &T,
         (false, false) => T::deserialize_uncompressed_unchecked(&m[..]),
     };
     loc.check_at(&dsite, got2.is_ok() == want.is_ok() && got2.as_ref().ok().map(|z| z == x).unwrap_or(true), || format!("{}: named helper deserialize_* disagrees with the mode it stands for", what()));
+
+    // CanonicalSerializeHashExt: the digest of the value is the digest of its serialization; serialize_to_vec!
+    if c && v {
+        use sha2::Digest as _;
+        let mu = model_bytes(x, false).out;
+        let hc = guarded(|| ark_serialize::CanonicalSerializeHashExt::hash::<sha2::Sha256>(x).to_vec());
+        let hu = guarded(|| ark_serialize::CanonicalSerializeHashExt::hash_uncompressed::<sha2::Sha256>(x).to_vec());
+        let (wc, wu) = (sha2::Sha256::digest(&m).to_vec(), sha2::Sha256::digest(&mu).to_vec());
+        loc.class("hash_ext");
+        loc.check_at("hash_ext", hc.as_ref() == Ok(&wc) && hu.as_ref() == Ok(&wu), || format!("{}: hash::<Sha256>() = {:?}, hash_uncompressed::<Sha256>() = {:?}; SHA-256 of the compressed / uncompressed serialization: {} / {}", what(), hc.as_ref().map(|h| hex(h)), hu.as_ref().map(|h| hex(h)), hex(&wc), hex(&wu)));
+        // serialize_to_vec![a, b]: its documentation promises the bytes of `(a, b).serialize_compressed`, its body calls
+        // serialize_uncompressed on every item.  Which of the two is intended is not judged: the result must be one of the
+        // two concatenations (they coincide for most types); which one it is is recorded.
+        let stv = guarded(|| ark_serialize::serialize_to_vec![x, x].ok());
+        let (cc, uu) = ([&m[..], &m[..]].concat(), [&mu[..], &mu[..]].concat());
+        loc.class_if(cc != uu, "serialize_to_vec:compressed_and_uncompressed_forms_differ");
+        loc.class_if(cc == uu, "serialize_to_vec:compressed_and_uncompressed_forms_coincide");
+        match &stv {
+            Ok(Some(b)) if *b == uu && cc != uu => loc.class("observed:serialize_to_vec_writes_the_uncompressed_form(doc_says_compressed)"),
+            Ok(Some(b)) if *b == cc && cc != uu => loc.class("observed:serialize_to_vec_writes_the_compressed_form"),
+            _ => {},
+        }
+        loc.check_at("serialize_to_vec", matches!(&stv, Ok(Some(b)) if *b == cc || *b == uu), || format!("{}: serialize_to_vec![x, x] = {:?}; neither the compressed nor the uncompressed concatenation", what(), stv.as_ref().map(|o| o.as_ref().map(|b| hex(b)))));
+    }
 
     // &T, &mut T, Rc<T> (serialization only), Arc<T>, Cow<T> (round trip): these impls delegate to T, so they are
     // compared with what T itself did above (a defect of T is reported once, under T's site)
@@ -1858,6 +2159,9 @@ fn malformed_case(ty: &Ty, idx: usize, input: &[u8], mode: usize, loc: &mut Loc,
         _ => {},
     }
     loc.class_if(m.inside, "truncated_inside_element");
+    // a bool byte / option tag outside {0, 1} that belongs to an ELEMENT (sequences, arrays and options read their
+    // elements with Validate::No and rely on the element decoder to refuse it) or to a field of a tuple / derived struct
+    loc.class_if(matches!(m.why, "bool" | "option_tag") && (m.fail_depth > 0 || ty.site == "tuple" || ty.site.starts_with("derive")), "invalid_tag_inside_container");
     if ty.flags & LENP != 0 && input.len() >= 8 {
         let l = get_le(&input[..8]) as u64;
         loc.class_if(l == u64::MAX, "len_prefix=2^64-1");
@@ -1871,6 +2175,9 @@ fn malformed_case(ty: &Ty, idx: usize, input: &[u8], mode: usize, loc: &mut Loc,
         Ok(None) => loc.class("model:undecided(point outside alphabet)"),
         Err(()) => {},
     }
+    // decodable, but not what serializing the decoded value gives back
+    let noncanonical = matches!(&m.res, Ok(Some(w)) if w[..] != input[..m.consumed.min(input.len())]);
+    loc.class_if(noncanonical, "model:decodable_but_not_canonical(unsorted/duplicate keys, non-minimal digits)");
     if loc.sampling() && sample_slot(2, 13, 36) {
         loc.sample(format!("{} model={}", what(), match &m.res { Ok(Some(b)) => format!("Ok -> {}", hex(b)), Ok(None) => "undecided".into(), Err(()) => format!("Err({})", m.why) }));
     }
@@ -1899,10 +2206,18 @@ fn malformed_case(ty: &Ty, idx: usize, input: &[u8], mode: usize, loc: &mut Loc,
         "panic" => loc.fail_at(&format!("{rsite}_deserialize/panic"), format!("{}: panic: {rest}", what())),
         "err" => {
             loc.class("outcome:err");
-            loc.check_at(&format!("{site}_deserialize/rejects_wellformed"), !matches!(m.res, Ok(Some(_))), || format!("{}: returned Err({rest}) but the format model decodes it", what()));
+            // an input that IS the serialization of the value it denotes must be accepted (round trip); an input the model
+            // can decode but that no serializer would write (unsorted / duplicate map or set keys, BigUint digits with
+            // trailing zeros) may be refused as well: "rejected or the model's value", never a panic or another value
+            if noncanonical {
+                loc.class("observed:decodable_noncanonical_input_rejected");
+            } else {
+                loc.check_at(&format!("{site}_deserialize/rejects_wellformed"), !matches!(m.res, Ok(Some(_))), || format!("{}: returned Err({rest}) but the input is the canonical encoding of a value", what()));
+            }
         },
         "ok" => {
             loc.class("outcome:ok");
+            loc.class_if(noncanonical, "observed:decodable_noncanonical_input_accepted");
             let f: Vec<&str> = rest.split(' ').collect();
             if f.len() != 5 {
                 machinery(format!("bad child response {line:?}"));
@@ -1932,6 +2247,30 @@ fn malformed_case(ty: &Ty, idx: usize, input: &[u8], mode: usize, loc: &mut Loc,
 // ------------------------------------------------------------------------------------------
 // serde: mode-pinning wrappers through serde_json; payload = base64(serialize_with_mode(pinned mode))
 // ------------------------------------------------------------------------------------------
+/// every way the harness knows to read a JSON value as a byte string: base64 (standard or URL-safe alphabet, padding
+/// optional), hex, or an array of numbers 0..=255
+fn json_byte_readings(v: &serde_json::Value) -> Vec<Vec<u8>> {
+    let mut out = Vec::new();
+    match v {
+        serde_json::Value::String(t) => {
+            let core = t.trim_end_matches('=');
+            let std_alpha: String = core.chars().map(|c| match c { '-' => '+', '_' => '/', c => c }).collect();
+            if let Some(b) = unb64(&std_alpha) {
+                out.push(b);
+            }
+            if t.len() % 2 == 0 && t.bytes().all(|c| c.is_ascii_hexdigit()) {
+                out.push(unhex(&t.to_ascii_lowercase()));
+            }
+        },
+        serde_json::Value::Array(a) => {
+            if let Some(b) = a.iter().map(|x| x.as_u64().filter(|n| *n < 256).map(|n| n as u8)).collect::<Option<Vec<u8>>>() {
+                out.push(b);
+            }
+        },
+        _ => {},
+    }
+    out
+}
 fn serde_wrapper_case<W, T>(wname: &str, wrap: fn(T) -> W, unwrap: fn(&W) -> &T, pc: bool, pv: bool, x: &T, loc: &mut Loc)
 where
     T: Ser,
@@ -1946,18 +2285,31 @@ where
         loc.sample(format!("{} json={:?}", what(), js.as_ref().ok()));
     }
     loc.class_if(!x.ok(), "value_invalid(out_of_subgroup)");
-    loc.check_at(&format!("{site}/payload"), js.as_ref().ok() == Some(&want_json), || format!("{}: JSON {:?} want {want_json} (= base64 of the {} encoding)", what(), js.as_ref().ok(), if pc { "compressed" } else { "uncompressed" }));
-    // decode the model JSON (independent of what the serializer produced)
-    let back = serde_json::from_str::<W>(&want_json);
+    // judged: the JSON the wrapper writes denotes - in some byte-string reading - exactly the canonical serialization in
+    // the pinned compression mode, and it reads back (round trip through serde_json) to the same value whenever the
+    // pinned validation mode admits the value.  The exact JSON TEXT (a string holding unpadded standard base64) is not
+    // part of the property: it is recorded as a class, and the format-specific probes below run only when it holds.
+    let Ok(js) = js else {
+        loc.fail_at(&format!("{site}/payload"), format!("{}: serde_json::to_string failed", what()));
+        return;
+    };
+    let text_is_model = js == want_json;
+    loc.class_if(text_is_model, "observed:serde_json_text=string_of_unpadded_standard_base64");
+    loc.class_if(!text_is_model, "observed:serde_json_text_differs_from_harness_format");
+    let readings = serde_json::from_str::<serde_json::Value>(&js).map(|v| json_byte_readings(&v)).unwrap_or_default();
+    loc.check_at(&format!("{site}/payload"), readings.iter().any(|b| *b == m), || format!("{}: JSON {js} does not denote the bytes {} (= the {} encoding) in any reading (base64 / hex / array of numbers)", what(), hex(&m), if pc { "compressed" } else { "uncompressed" }));
     let want_ok = x.ok() || !pv;
-    match &back {
+    match &serde_json::from_str::<W>(&js) {
         Ok(w) => {
             loc.check_at(&format!("{site}/validate"), want_ok, || format!("{}: {} wrapper accepted an out-of-subgroup point", what(), if pv { "Checked" } else { "Unchecked" }));
             loc.check_at(&format!("{site}/roundtrip"), unwrap(w) == x, || format!("{}: round trip returned {}", what(), trunc(format!("{:?}", unwrap(w)))));
         },
         Err(e) => {
-            loc.check_at(&format!("{site}/validate"), !want_ok, || format!("{}: deserialization of {want_json} failed: {e}", what()));
+            loc.check_at(&format!("{site}/validate"), !want_ok, || format!("{}: deserialization of its own output {js} failed: {e}", what()));
         },
+    }
+    if !text_is_model {
+        return;
     }
     // payload in the other compression mode: decided by the model decoder (Err must be Err)
     let other = model_bytes(x, !pc).out;
@@ -2007,8 +2359,19 @@ fn serde_vec_module_case<S: serde::Serialize + serde::de::DeserializeOwned>(mnam
     loc.class_if(x.is_empty(), "empty_container");
     loc.class_if(!x.ok(), "value_invalid(out_of_subgroup)");
     let js = serde_json::to_string(&mk(x.clone()));
-    loc.check_at(&format!("{site}/payload"), js.as_ref().ok() == Some(&want_json), || {
-        format!("{}: JSON {:?} want {want_json} (elements in the {} encoding named by the module)", what(), js.as_ref().ok(), if pc { "compressed" } else { "uncompressed" })
+    // judged: the field holds - element by element, or as one byte string - the canonical serialization in the compression
+    // mode named by the module; the exact JSON text is recorded as a class only
+    let text_is_model = js.as_ref().ok() == Some(&want_json);
+    loc.class_if(text_is_model, "observed:serde_json_text=string_of_unpadded_standard_base64");
+    loc.class_if(!text_is_model, "observed:serde_json_text_differs_from_harness_format");
+    let denotes = js.as_ref().ok().and_then(|t| serde_json::from_str::<serde_json::Value>(t).ok()).map(|v| {
+        let f = &v["v"];
+        let per_element = f.as_array().map(|a| a.len() == x.len() && a.iter().zip(x.iter()).all(|(j, p)| json_byte_readings(j).iter().any(|b| *b == g1_enc(p, pc)))).unwrap_or(false);
+        let whole = json_byte_readings(f).iter().any(|b| *b == model_bytes(x, pc).out);
+        per_element || whole
+    });
+    loc.check_at(&format!("{site}/payload"), denotes == Some(true), || {
+        format!("{}: JSON {:?} does not hold the elements in the {} encoding named by the module (harness format: {want_json})", what(), js.as_ref().ok(), if pc { "compressed" } else { "uncompressed" })
     });
     // own output must round-trip whenever the named validation mode accepts the value
     let want_ok = x.ok() || !pv;
@@ -2050,6 +2413,15 @@ fn main() {
         "model:accept",
         "outcome:ok",
         "outcome:err",
+        "mixed_batch:one_invalid_member",
+        "mixed_batch:all_valid_twin",
+        "len_beyond_preallocation_cap",
+        "len_at_preallocation_cap",
+        "invalid_tag_inside_container",
+        "hash_ext",
+        "serialize_to_vec:compressed_and_uncompressed_forms_differ",
+        "serialize_to_vec:compressed_and_uncompressed_forms_coincide",
+        "model:decodable_but_not_canonical(unsorted/duplicate keys, non-minimal digits)",
     ]);
     ctx.assume("oracle: byte-level format model and reference decoder written in the harness (Spec::enc / Spec::dec); curve points are decided by the model only for the alphabet {O, G, -2G, B (on curve, outside the subgroup)}, other point encodings are 'undecided' (generic checks only)");
     ctx.assume("64-bit target: usize/isize are encoded as 8 bytes");
@@ -2058,6 +2430,11 @@ fn main() {
     ctx.bound("sequence_lengths", if thorough { "all lengths <= 4 over 3-value alphabets (points: 4-value alphabet incl. an out-of-subgroup point)" } else { "all lengths <= 3 over 3-value alphabets (points: 4-value alphabet incl. an out-of-subgroup point)" });
     ctx.bound("large_values", "Vec<u8> of 300 and 70000 bytes, Vec<u16>/VecDeque<u16> (wrapped ring buffer)/LinkedList<u16> of 500..1000 elements, Vec<G1Affine> of 33 points (one variant with a single out-of-subgroup point), 600-char String, full 256-key map/set, BigUint 2^5000");
     ctx.bound("modes", "2 x 2 (Compress x Validate) for every value and every malformed input");
+    ctx.bound("derive_shapes", "named, tuple, nested-tuple fields, generic parameter with inline bounds (Named, Tup, Nest, Gen<T>, Small) + unit struct, empty named struct, tuple struct whose field is ((A, B), C), where-clause bounds, generic parameter used in PhantomData only (enums are not supported by the derive)");
+    ctx.bound("public_helpers", "every valid value (once, compressed/checked case): CanonicalSerializeHashExt::hash / hash_uncompressed with SHA-256 against the digest of the model bytes; serialize_to_vec![x, x] against the compressed and the uncompressed concatenation (either accepted, which one is recorded)");
+    ctx.assume("inputs that the format model can decode but that are not the serialization of the decoded value (unsorted or duplicate map / set keys, BigUint digits with trailing zeros) may be accepted with the model's value or rejected; serde helpers: the JSON must denote the canonical bytes (base64 / hex / number array readings) and round-trip - the exact text is a recorded class");
+    ctx.bound("mixed_batches", "Vec<Option<G1Affine>>, Vec<Vec<G1Affine>>, Option<Vec<G1Affine>>, Vec<[G1Affine;2]>, Vec<Named>, (G1Affine,Vec<G1Affine>), BTreeMap<u8,G1Affine>: every shape with <= 3..4 point slots, the out-of-subgroup point in exactly one slot (every slot in turn; Vec<Named>: also the Edwards field) and the all-valid twin: checked modes fail, unchecked modes round-trip, check / batch_check agree with the model");
+    ctx.bound("beyond_preallocation", "sequences around and beyond the 4096 bytes the deserializers reserve before reading: Vec<u8> 4095/4096/4097/5000/70000, Vec<u64> 511/512/513/600, String 4097 bytes, BigUint 4097 and 5000 bytes, VecDeque<u16> 2049 (contiguous and wrapped), Vec<[u8;32]> 127/128/129, Vec<G1Affine> 90 (all valid / last invalid), Vec<[u64;600]> 2 (one element alone exceeds the reservation), BTreeMap<u32,u64> 400: round trip, exact size, exactly the encoding consumed (sentinel bytes follow)");
     ctx.bound("faults", format!("per valid encoding (<= 32 bytes; <= 200 (thorough 320) bytes for types with curve elements, {} seeds): every truncation, every 1-byte substitution from {{00,01,02,7f,80,ff}} (thorough: 12 values), every 2-byte substitution for encodings <= {} bytes, every length prefix replaced by {{len+1, 2^16, 2^24, 2^32, 2^40, 2^63, 2^64-1{}}}", if thorough { 40 } else { 5 }, if thorough { 16 } else { 10 }, if thorough { ", len+2, 0, 255, 256, 2^20, 2^31, 2^32-1, 2^48, 2^56, 2^63-1, 2^64-2" } else { "" }));
     ctx.bound("short_strings", if thorough { "all byte strings of length <= 2 for every type in all 4 modes" } else { "all byte strings of length <= 2 for every type (compressed+checked); length <= 1 in all 4 modes" });
     build_tables(&mut ctx);
@@ -2065,8 +2442,25 @@ fn main() {
     ctx.bound("types", reg.len() as u64);
 
     // 1. valid values
+    // (the types added for mixed batches / long sequences / tags inside containers / extra derive shapes are explored
+    // together, in one space per kind of sweep; index -> (type, case) by offsets)
+    let grouped: Vec<usize> = (0..reg.len()).filter(|k| reg[*k].flags & NOSHORT != 0).collect();
+    ctx.bound("grouped_types", grouped.iter().map(|k| reg[*k].name).collect::<Vec<_>>().join(", "));
     for t in &reg {
+        if t.flags & NOSHORT != 0 {
+            continue;
+        }
         ctx.sweep(&format!("valid/{}", t.name), 4 * t.nvalues as u64, |i, loc| (t.valid)(i, loc));
+    }
+    {
+        let mut offs = vec![0u64];
+        for k in &grouped {
+            offs.push(offs.last().unwrap() + 4 * reg[*k].nvalues as u64);
+        }
+        ctx.sweep("valid/grouped_types", *offs.last().unwrap(), |i, loc| {
+            let g = offs.partition_point(|o| *o <= i) - 1;
+            (reg[grouped[g]].valid)(i - offs[g], loc)
+        });
     }
     // slices
     {
@@ -2106,7 +2500,7 @@ fn main() {
     // 3. malformed input in child processes
     let mut total_inputs = 0u64;
     for (idx, t) in reg.iter().enumerate() {
-        if t.flags & NOMAL != 0 {
+        if t.flags & (NOMAL | NOSHORT) != 0 {
             continue;
         }
         let inputs = malformed_inputs(t, thorough);
@@ -2114,9 +2508,23 @@ fn main() {
         SWEEP_DEATHS.store(0, Ordering::Relaxed);
         ctx.sweep(&format!("malformed/{}", t.name), 4 * inputs.len() as u64, |i, loc| malformed_case(t, idx, &inputs[(i / 4) as usize], (i % 4) as usize, loc, false));
     }
+    {
+        let per_type: Vec<Vec<Vec<u8>>> = grouped.iter().map(|k| if reg[*k].flags & NOMAL != 0 { Vec::new() } else { malformed_inputs(&reg[*k], thorough) }).collect();
+        let mut offs = vec![0u64];
+        for inputs in &per_type {
+            total_inputs += inputs.len() as u64;
+            offs.push(offs.last().unwrap() + 4 * inputs.len() as u64);
+        }
+        SWEEP_DEATHS.store(0, Ordering::Relaxed);
+        ctx.sweep("malformed/grouped_types", *offs.last().unwrap(), |i, loc| {
+            let g = offs.partition_point(|o| *o <= i) - 1;
+            let j = i - offs[g];
+            malformed_case(&reg[grouped[g]], grouped[g], &per_type[g][(j / 4) as usize], (j % 4) as usize, loc, false)
+        });
+    }
     ctx.bound("malformed_inputs_distinct", total_inputs);
     for (idx, t) in reg.iter().enumerate() {
-        if t.flags & NOMAL != 0 {
+        if t.flags & (NOMAL | NOSHORT) != 0 {
             continue;
         }
         // index = mode * 65793 + string (contiguous strings share a pipelined batch)
